@@ -216,6 +216,15 @@ func init() {
 		s := "import RisorModel.C19.Model\nnamespace Risor.Generated.C19\nopen Risor.C19\n\n"
 		s += "/-- regenerated from modules/strings/strings.go and strings_gen.go -/\n"
 		s += "def stringsSigs : List Sig := [\n" + strings.Join(rows, ",\n") + " ]\n"
+		// 3. object/typeconv.go: the type switches of AsBytes and AsString — per case, in source
+		// order, the types it lists and HOW the case gets at the bytes: by looking at the object
+		// (`.look`), by reading it as a stream (`.readAll`: the case body calls io.ReadAll / Read /
+		// ReadFrom / Next / WriteTo / io.Copy …), or not at all (`.reject`: the default case)
+		tc := parse("object/typeconv.go")
+		for _, fname := range []string{"AsBytes", "AsString"} {
+			s += "\n/-- regenerated from object/typeconv.go: the type switch of " + fname + " -/\n"
+			s += "def " + strings.ToLower(fname[:1]) + fname[1:] + "Cases : List (String × Access) := [" + strings.Join(c19_switchCases(tc, fname), ", ") + "]\n"
+		}
 		s += "\nend Risor.Generated.C19\n"
 		return s
 	}})
@@ -228,4 +237,75 @@ func c19_commentText(g *ast.CommentGroup) string {
 		sb.WriteString("\n")
 	}
 	return sb.String()
+}
+
+// c19_typeText renders the type expression of a case clause: *T, pkg.T, T.
+func c19_typeText(e ast.Expr) string {
+	switch x := e.(type) {
+	case *ast.StarExpr:
+		return "*" + c19_typeText(x.X)
+	case *ast.SelectorExpr:
+		return c19_typeText(x.X) + "." + x.Sel.Name
+	case *ast.Ident:
+		return x.Name
+	}
+	c19Fail("unexpected type expression in a case clause: %T", e)
+	return ""
+}
+
+var c19_consuming = map[string]bool{"ReadAll": true, "Read": true, "ReadFrom": true, "ReadByte": true, "ReadBytes": true, "ReadString": true,
+	"ReadRune": true, "Next": true, "WriteTo": true, "Copy": true, "CopyN": true, "ReadFull": true, "ReadAtLeast": true, "Reset": true, "Truncate": true}
+
+// c19_switchCases: the single type switch in the body of the converter `fname`.
+func c19_switchCases(f *ast.File, fname string) []string {
+	var fd *ast.FuncDecl
+	for _, d := range f.Decls {
+		if x, ok := d.(*ast.FuncDecl); ok && x.Recv == nil && x.Name.Name == fname {
+			fd = x
+		}
+	}
+	if fd == nil {
+		c19Fail("object/typeconv.go: func %s not found", fname)
+	}
+	var sw *ast.TypeSwitchStmt
+	n := 0
+	ast.Inspect(fd.Body, func(nd ast.Node) bool {
+		if x, ok := nd.(*ast.TypeSwitchStmt); ok {
+			sw = x
+			n++
+		}
+		return true
+	})
+	if n != 1 {
+		c19Fail("%s: expected exactly one type switch, found %d", fname, n)
+	}
+	if len(fd.Body.List) != 1 {
+		c19Fail("%s: the type switch is not the whole body (something runs before or after it)", fname)
+	}
+	var rows []string
+	for _, st := range sw.Body.List {
+		cc := st.(*ast.CaseClause)
+		access := ".look"
+		for _, b := range cc.Body {
+			ast.Inspect(b, func(nd ast.Node) bool {
+				if call, ok := nd.(*ast.CallExpr); ok {
+					if sel, ok := call.Fun.(*ast.SelectorExpr); ok && c19_consuming[sel.Sel.Name] {
+						access = ".readAll"
+					}
+				}
+				return true
+			})
+		}
+		if cc.List == nil {
+			if access != ".look" {
+				c19Fail("%s: the default case reads its argument", fname)
+			}
+			rows = append(rows, `("default", .reject)`)
+			continue
+		}
+		for _, t := range cc.List {
+			rows = append(rows, fmt.Sprintf("(%q, %s)", c19_typeText(t), access))
+		}
+	}
+	return rows
 }
